@@ -7,6 +7,7 @@ import SslModel.Model.TyIO
 import SslModel.Model.SpecIO
 import SslModel.Model.TyText
 import SslModel.Model.ValText
+import SslModel.Model.StdLib
 /-! Model side of the correspondence: one request per line on stdin, one canonical answer per
     line on stdout.  Import-free apart from the model, so it links as a native executable. -/
 open Ssl
@@ -227,6 +228,35 @@ def handle (line : String) : String :=
       | "not" => s!"(i {(Gen.not.eval v).toInt})"
       | _ => "(bad-op)"
     | none => "(bad-request)"
+  | ["std1", f, a] =>
+    match a.toInt? with
+    | some x =>
+      let v : I64 := BitVec.ofInt 64 x
+      match f with
+      | "count_ones" => s!"(i {Std.countOnes v})"
+      | "count_zeros" => s!"(i {Std.countZeros v})"
+      | "leading_zeroes" => s!"(i {Std.leadingZeros v})"
+      | "trailing_zeroes" => s!"(i {Std.trailingZeros v})"
+      | "leading_ones" => s!"(i {Std.leadingOnes v})"
+      | "trailing_ones" => s!"(i {Std.trailingOnes v})"
+      | "swap_bytes" => s!"(i {(Std.swapBytes v).toInt})"
+      | "reverse_bits" => s!"(i {(Std.reverseBits v).toInt})"
+      | "ilog2" => match Std.ilog v 2#64 with | some r => s!"(i {r})" | none => "unit"
+      | "ilog10" => match Std.ilog v 10#64 with | some r => s!"(i {r})" | none => "unit"
+      | _ => "(bad-op)"
+    | none => "(bad-request)"
+  | ["std2", "ilog", a, b] =>
+    match a.toInt?, b.toInt? with
+    | some x, some y =>
+      match Std.ilog (BitVec.ofInt 64 x) (BitVec.ofInt 64 y) with | some r => s!"(i {r})" | none => "unit"
+    | _, _ => "(bad-request)"
+  | ["std-sig"] =>
+    -- declared signature of every export, as the model derives it from the generated tables
+    " ".intercalate (Gen.stdExports.map fun e =>
+      "(" ++ e.module ++ " " ++ e.name ++ " " ++ (if e.isConst then "const" else "fn") ++ " (" ++
+        " ".intercalate (e.params.map fun p => match Std.paramTy p with
+          | some t => Ty.render t | none => "?") ++ ") " ++
+        (match Std.retTy e with | some t => Ty.render t | none => "?") ++ ")")
   | ["fscalar", op, a, b] =>
     match parseHex a, parseHex b with
     | some x, some y => (floatOp op x y).getD "(bad-op)"
